@@ -55,6 +55,12 @@ RECIPES = [
     ("C17", "break", ["C17-R5"], UNC, "            V[:, i + 1] = vi = v_part - Bp * dmpfrc1\n            dmpfrc0 = dmpfrc1\n\n        if not self.slices:\n            d[kdof] = D\n            v[kdof] = V\n\n    def _solve_real_unc_generator(",
      "            V[:, i + 1] = vi = v_part - Bp * dmpfrc1\n\n        if not self.slices:\n            d[kdof] = D\n            v[kdof] = V\n\n    def _solve_real_unc_generator(",
      "damping force not carried to the next step"),
+    ("C17", "break", ["C17-R1"], NM, "        d, v, a, F = self._init_dva(force, d0, v0)", "        d, v, a, F = self._init_dva(force, v0, d0)",
+     "initial conditions swapped on the way to the start-up step"),
+    ("C17", "break", ["C17-R2"], NM, "        self.nonlin_terms = 0\n        if self.ksize == 0:", "        self.nonlin_terms = 1\n        if self.ksize == 0:",
+     "a new solver claims a nonlinear term"),
+    ("C17", "break", ["C17-R2"], NM, "        d0 = np.zeros(self.ksize) if d0 is None else d0[self.nonrf]", "        d0 = np.zeros(self.ksize) if v0 is None else d0[self.nonrf]",
+     "default initial displacement keyed on v0"),
     # ---- partitions given as index vectors / rf modes
     ("C17", "break", ["C17-R1"], NM, "                d[self.kdof] = D\n", "                pass\n", "displacements not copied back for index-vector partitions"),
     ("C17", "break", ["C17-R5"], UNC, "        if not self.slices:\n            d[kdof] = D\n            v[kdof] = V\n\n    def _solve_real_unc_generator(",
